@@ -1646,8 +1646,15 @@ func (h *Hashgraph) CheckBlock(block *Block, peerSet *peers.PeerSet) error {
 	}
 
 	validSignatures := 0
+	// signatures are counted once per validator: the keys of the signature map
+	// come from a remote peer and several spellings (letter case) decode to
+	// the same public key
+	counted := make(map[string]bool)
 	for _, s := range block.GetSignatures() {
 		validatorHex := s.ValidatorHex()
+		if counted[validatorHex] {
+			continue
+		}
 		if _, ok := peerSet.ByPubKey[validatorHex]; !ok {
 			h.logger.WithFields(logrus.Fields{
 				"validator": validatorHex,
@@ -1657,6 +1664,7 @@ func (h *Hashgraph) CheckBlock(block *Block, peerSet *peers.PeerSet) error {
 		ok, _ := block.Verify(s)
 		if ok {
 			validSignatures++
+			counted[validatorHex] = true
 		}
 	}
 
